@@ -92,7 +92,7 @@ pub fn gen_cfg(r: &mut Rng, setup: &Setup) -> Cfg {
     c
 }
 
-const CACHE_STATES: &[&str] = &["absent", "matching", "mismatching", "torn", "bitflip", "version", "garbage"];
+const CACHE_STATES: &[&str] = &["absent", "matching", "mismatching", "torn", "bitflip", "version", "garbage", "unreadable", "symlink_to_dir", "symlink_loop"];
 
 impl Check for C14 {
     fn id(&self) -> &'static str {
@@ -175,8 +175,23 @@ impl Check for C14 {
         let force_kind = i % 3 == 2;
         let mut pr = r.split("procs");
         let n = if force_kind { 3 } else { pr.range(3, 6) };
-        let procs: Vec<ProcSpec> = (0..n).map(|_| gen_proc(&mut pr)).collect();
+        let mut procs: Vec<ProcSpec> = (0..n).map(|_| gen_proc(&mut pr)).collect();
         let verbose: Vec<bool> = (0..n).map(|_| pr.chance(1, 5)).collect();
+        // legal but unusual I/O in a seventh of the histories: reads that return fewer bytes than
+        // asked for and calls interrupted by a signal (std retries both). Nothing has changed, so
+        // nothing may be rewritten - whatever the record and the sources were read with.
+        if i % 7 == 3 {
+            let mut qr = r.split("masked-faults");
+            for p in procs.iter_mut().skip(if force_kind { 1 } else { 0 }) {
+                if qr.chance(2, 3) {
+                    for _ in 0..qr.range(1, 4) {
+                        let at = crate::interpose::FaultAt::Read(qr.below(60) as usize);
+                        let kind = if qr.chance(1, 4) { crate::interpose::FaultKind::Eintr } else { crate::interpose::FaultKind::ShortRead { k: qr.range(1, 48) } };
+                        p.faults.push(crate::interpose::FaultSpec { at, kind });
+                    }
+                }
+            }
+        }
         let shared_layout = matches!(
             (setup.cwd, setup.conf),
             (crate::world::Cwd::SrcTauri, ConfSrc::Tauri) | (crate::world::Cwd::SrcTauri, ConfSrc::Standalone) | (crate::world::Cwd::App, ConfSrc::Standalone)
@@ -198,6 +213,16 @@ impl Check for C14 {
                 }
             })
             .collect();
+        // ... and, where nothing is lost or dropped between the runs, one repeat run that cannot read
+        // one of the source files at all (EIO / EACCES): it may fail, it may not rewrite anything
+        if i % 7 == 3 && !force_kind && between.iter().all(|b| b.is_none()) {
+            let mut qr = r.split("source-read-error");
+            let k = qr.range(1, n - 1);
+            procs[k].faults.push(crate::interpose::FaultSpec {
+                at: crate::interpose::FaultAt::PathOp { suffix: ".rs".into(), op: if qr.chance(1, 2) { Op::OpenR } else { Op::Read }, nth: qr.below(4) as usize },
+                kind: crate::interpose::FaultKind::Err(if qr.chance(1, 2) { libc::EIO } else { libc::EACCES }),
+            });
+        }
         let mut fr = r.split("force");
         // the force matrix is walked systematically: (cache state) x (force source) x (setup);
         // i = 3*fk + 2 visits every setup for every cell because 3 is coprime to the setup count
@@ -330,7 +355,13 @@ impl Check for C14 {
                 co.count("processes", 1);
                 co.count("repeat_runs", 1);
                 let after_files = scen::out_files(&w, &c.setup);
-                if !r.res.status.is_ok() {
+                // a run that met an injected I/O *error* (not a short read or an interrupted call,
+                // which std hides) may fail; what it may not do is rewrite anything
+                let met_error = r.res.fired.iter().any(|(kind, _)| kind == "err");
+                if met_error {
+                    co.count("repeat_runs_that_met_a_read_error", 1);
+                }
+                if !r.res.status.is_ok() && !met_error {
                     co.violate(
                         "C14/repeat-run-fails".into(),
                         "A: a repeated run with nothing changed succeeds",
@@ -427,6 +458,17 @@ impl Check for C14 {
                     let s = String::from_utf8_lossy(&orig).replace("\"version\": 1", "\"version\": 2");
                     std::fs::write(&cache_path, s).unwrap();
                 }
+                // the record is there and right, but cannot be opened (permissions, a failing disk):
+                // injected into the judged run below
+                "unreadable" => {}
+                "symlink_to_dir" => {
+                    let _ = std::fs::remove_file(&cache_path);
+                    std::os::unix::fs::symlink(".", &cache_path).unwrap();
+                }
+                "symlink_loop" => {
+                    let _ = std::fs::remove_file(&cache_path);
+                    std::os::unix::fs::symlink(".typecache", &cache_path).unwrap();
+                }
                 _ => std::fs::write(&cache_path, "{\"hello\": [1,2,3]}").unwrap(),
             }
             let mut cfg2 = c.cfg.clone();
@@ -458,7 +500,14 @@ impl Check for C14 {
                 }
             }
             let before_files = scen::out_files(&w, &c.setup);
-            let r = scen::run_tool(env, &w, &c.setup, &cfg2, c.procs[1].clone(), c.force_flag, c.verbose[1]);
+            let mut p1 = c.procs[1].clone();
+            if c.cache_state == "unreadable" {
+                p1.faults.push(crate::interpose::FaultSpec {
+                    at: crate::interpose::FaultAt::PathOp { suffix: "/.typecache".into(), op: Op::OpenR, nth: 0 },
+                    kind: crate::interpose::FaultKind::Err(libc::EACCES),
+                });
+            }
+            let r = scen::run_tool(env, &w, &c.setup, &cfg2, p1, c.force_flag, c.verbose[1]);
             co.count("processes", 3);
             let after_files = scen::out_files(&w, &c.setup);
             let label = format!(
@@ -629,8 +678,9 @@ impl Check for C14 {
         }
         // plain clocks, no chunking
         for k in 0..c.procs.len() {
-            if c.procs[k].chunk_seed.is_some() || !c.procs[k].clock.jumps.is_empty() || c.verbose[k] {
+            if c.procs[k].chunk_seed.is_some() || !c.procs[k].clock.jumps.is_empty() || c.verbose[k] || !c.procs[k].faults.is_empty() {
                 let mut d = c.clone();
+                d.procs[k].faults.clear();
                 d.procs[k].chunk_seed = None;
                 d.procs[k].clock = Default::default();
                 d.verbose[k] = false;
